@@ -76,7 +76,9 @@ func init() {
 			RunE1(c, "C13", obs)
 			// "a failed download never discards previously cached keys": nobody may write into the shared key slices handed around
 			// (the cache, the single-flight result): no function of the key-set code writes into a slice it received
+			sliceRuleOnlyFiles = []string{"pkg/oidc/keyset.go", "pkg/client/rp/jwks.go"}
 			RunSliceAndClosureWrites(c, []string{"oidc", "client/rp"}, nil)
+			sliceRuleOnlyFiles = nil
 			RunLockset(c, "client/rp", "remoteKeySet", "mu", []string{"cachedKeys", "inflight"},
 				[]allowSite{{"client/rp.(*remoteKeySet).updateKeys", "r.inflight.done", "owner goroutine: inflight was stored before `go` (happens-before) and is only replaced by this goroutine, later, under the lock"}},
 				[]string{"client/rp.NewRemoteKeySet"})
